@@ -92,72 +92,80 @@ structure Obs where
   fileAfter : Node                    -- … and after
   listInput : Content                 -- the file list a run without `-d` uses (script dir, else start dir)
 
-def findIdx (p : List Val → Bool) : List (List Val × Nat) → Nat
+/-- the log as the property sees it: what ran, and whether it succeeded -/
+abbrev View := List (List Val × Bool)
+
+def Obs.view (ob : Obs) : View := ob.log.map (fun e => (e.1, e.2 == 0))
+
+def findIdxV (p : List Val → Bool) : View → Nat
   | [] => 0
-  | (a, _) :: r => if p a then 0 else findIdx p r + 1
+  | (a, _) :: r => if p a then 0 else findIdxV p r + 1
 
 def wrapOut : Backend → Content → Content
   | .atlas, c => c
   | .cms, c => .converted c
 
 /-- the content the destination must hold after a successful run whose job was step `j` -/
-def expectedOut (ob : Obs) (f : Flags) (j : Nat) : Content :=
+def expectedOut (b : Backend) (invId : Nat) (tokVal : Nat → Val) (listInput : Content) (f : Flags) (j : Nat) : Content :=
   let input : Content := match f.d with
-    | some k => .text (Val.norm (ob.tokVal k ++ [.lit "\n"]))
-    | none => ob.listInput
-  (wrapOut ob.backend (.jobOut ob.invId j input)).norm
+    | some k => .text (Val.norm (tokVal k ++ [.lit "\n"]))
+    | none => listInput
+  (wrapOut b (.jobOut invId j input)).norm
 
-def Obs.dest (ob : Obs) : Node := if ob.outAfter = .dir then ob.fileAfter else ob.outAfter
+/-- what is at the destination: `<-o path>/ANALYSIS.root` if the `-o` path is a directory, else the path itself -/
+def destNode (outAfter fileAfter : Node) : Node := if outAfter = .dir then fileAfter else outAfter
 
-def allOkLog (log : List (List Val × Nat)) : Bool := log.all (fun e => e.2 = 0)
-
-/-- unknown flag / missing option argument: exit 10 before any step -/
-def specBad (ob : Obs) : Bool := ob.code = 10 && ob.log.isEmpty
-/-- stray operands: exit 1 before any step -/
-def specStray (ob : Obs) : Bool := ob.code = 1 && ob.log.isEmpty
 /-- exit 0 ⇒ every step that ran succeeded -/
-def specFailstop (ob : Obs) : Bool := ob.code != 0 || allOkLog ob.log
+def specFailstopV (ok : Bool) (v : View) : Bool := !ok || v.all (fun e => e.2)
 /-- `-c` ⇒ no job, no delivery; `-r` ⇒ no build step -/
-def specPhases (ob : Obs) (f : Flags) : Bool :=
-  (!f.c || ob.log.all (fun e => !isRunStep ob.backend e.1)) &&
-  (!f.r || ob.log.all (fun e => !isBuild ob.backend e.1))
+def specPhasesV (b : Backend) (f : Flags) (v : View) : Bool :=
+  (!f.c || v.all (fun e => !isRunStep b e.1)) && (!f.r || v.all (fun e => !isBuild b e.1))
 /-- success with neither flag ⇒ every build tool ran before the job -/
-def specBuildThenRun (ob : Obs) (f : Flags) : Bool :=
-  !(ob.code = 0 && !f.c && !f.r) ||
-    (let j := findIdx (isJob ob.backend) ob.log
-     (buildTools ob.backend).all (fun t => (ob.log.take j).any (fun e => nameIs e.1 t)))
-/-- success of a run ⇒ exactly one job step, the delivery is the last step and comes after it, and
-the destination holds the output of THIS job on the requested input -/
-def specDelivery (ob : Obs) (f : Flags) : Bool :=
-  !(ob.code = 0 && !f.c) ||
-    (let j := findIdx (isJob ob.backend) ob.log
-     j + 1 < ob.log.length &&
-     (ob.log.filter (fun e => isJob ob.backend e.1)).length = 1 &&
-     (match ob.log.getLast? with | some e => isDelivery ob.backend e.1 | none => false) &&
-     ob.dest.norm = .file (expectedOut ob f j))
-/-- failure, or a compile-only invocation ⇒ nothing new at the destination -/
-def specNoFresh (ob : Obs) (f : Flags) : Bool :=
-  !(ob.code != 0 || f.c) || (ob.outAfter = ob.outBefore && ob.fileAfter = ob.fileBefore)
-/-- nothing failed and the environment is adequate ⇒ exit 0 -/
-def specLive (ob : Obs) : Bool := !ob.live || ob.code = 0
+def specBuildThenRunV (b : Backend) (f : Flags) (ok : Bool) (v : View) : Bool :=
+  !(ok && !f.c && !f.r) ||
+    (let j := findIdxV (isJob b) v
+     (buildTools b).all (fun t => (v.take j).any (fun e => nameIs e.1 t)))
+/-- exactly one job step, the delivery is the last step and comes after it -/
+def deliveryLogV (b : Backend) (v : View) : Bool :=
+  let j := findIdxV (isJob b) v
+  j + 1 < v.length && (v.filter (fun e => isJob b e.1)).length = 1 &&
+    (match v.getLast? with | some e => isDelivery b e.1 | none => false)
+
+/-- the clauses for a well-formed command line -/
+def SpecCore (b : Backend) (f : Flags) (tokVal : Nat → Val) (invId : Nat) (live : Bool) (ok : Bool) (v : View)
+    (outBefore outAfter fileBefore fileAfter : Node) (listInput : Content) : Bool :=
+  specFailstopV ok v && specPhasesV b f v && specBuildThenRunV b f ok v &&
+  -- success of a run ⇒ the destination holds the output of THIS job on the requested input
+  (!(ok && !f.c) ||
+    (deliveryLogV b v &&
+      (destNode outAfter fileAfter).norm = .file (expectedOut b invId tokVal listInput f (findIdxV (isJob b) v)))) &&
+  -- failure, or a compile-only invocation ⇒ nothing new at the destination
+  (!(!ok || f.c) || (outAfter = outBefore && fileAfter = fileBefore)) &&
+  -- nothing failed and the environment is adequate ⇒ exit 0
+  (!live || ok)
 
 def SpecOK (ob : Obs) : Bool :=
   let f := flagsOf ob.evs {}
-  if f.bad then specBad ob
-  else if ob.nrest ≠ 0 then specStray ob
-  else specFailstop ob && specPhases ob f && specBuildThenRun ob f && specDelivery ob f && specNoFresh ob f && specLive ob
+  if f.bad then ob.code = 10 && ob.view.isEmpty           -- unknown flag / missing argument: exit 10 before any step
+  else if ob.nrest ≠ 0 then ob.code = 1 && ob.view.isEmpty  -- stray operands: exit 1 before any step
+  else SpecCore ob.backend f ob.tokVal ob.invId ob.live (ob.code == 0) ob.view
+        ob.outBefore ob.outAfter ob.fileBefore ob.fileAfter ob.listInput
 
 /-- first clause of `SpecOK` that fails (for the harness) -/
 def specWhy (ob : Obs) : String :=
   let f := flagsOf ob.evs {}
-  if f.bad then (if specBad ob then "" else "unknown flag or missing option argument: expected exit 10 before any step")
-  else if ob.nrest ≠ 0 then (if specStray ob then "" else "stray arguments: expected exit 1 before any step")
-  else if !specFailstop ob then "exit 0 although a logged step failed"
-  else if !specPhases ob f then "-c ran a job/delivery step or -r ran a build step"
-  else if !specBuildThenRun ob f then "successful full run without the build steps before the job"
-  else if !specDelivery ob f then "exit 0 but the destination does not hold the output of this invocation's job on the requested input (or the delivery is not the last step after exactly one job step)"
-  else if !specNoFresh ob f then "non-zero exit (or -c) but the destination changed"
-  else if !specLive ob then "no step failed and the environment was adequate, yet the script did not exit 0"
+  let ok := ob.code == 0
+  let v := ob.view
+  if f.bad then (if ob.code = 10 && v.isEmpty then "" else "unknown flag or missing option argument: expected exit 10 before any step")
+  else if ob.nrest ≠ 0 then (if ob.code = 1 && v.isEmpty then "" else "stray arguments: expected exit 1 before any step")
+  else if !specFailstopV ok v then "exit 0 although a logged step failed"
+  else if !specPhasesV ob.backend f v then "-c ran a job/delivery step or -r ran a build step"
+  else if !specBuildThenRunV ob.backend f ok v then "successful full run without the build steps before the job"
+  else if ok && !f.c && !deliveryLogV ob.backend v then "exit 0 but not exactly one job step followed by a final delivery step"
+  else if ok && !f.c && !((destNode ob.outAfter ob.fileAfter).norm = .file (expectedOut ob.backend ob.invId ob.tokVal ob.listInput f (findIdxV (isJob ob.backend) v))) then
+    "exit 0 but the destination does not hold the output of this invocation's job on the requested input"
+  else if (!ok || f.c) && !(ob.outAfter = ob.outBefore && ob.fileAfter = ob.fileBefore) then "non-zero exit (or -c) but the destination changed"
+  else if ob.live && !ok then "no step failed and the environment was adequate, yet the script did not exit 0"
   else ""
 
 /-! ### packaging a model run as an observation -/
@@ -173,13 +181,17 @@ def cwdList : SPath := { base := .cwd0, segs := ["filelist.txt"] }
 def listInputOf (fs : FS) : Content :=
   if fs scriptList ≠ .absent then fs.content scriptList else fs.content cwdList
 
-def obsOf (b : Backend) (script : List Sh) (i : Inv) (o : Oracle) (invId : Nat) (fs : FS) (live : Bool) : Obs :=
-  let out := run script i o invId fs
+def mkObs (b : Backend) (i : Inv) (invId : Nat) (live : Bool) (code : Nat) (log : List (Cmd × Nat)) (fs fs' : FS) : Obs :=
   let p := outPath (flagsOf i.evs {})
   { backend := b, evs := i.evs, nrest := i.nrest, tokVal := fun k => [.optarg k], invId := invId, live := live,
-    code := out.code, log := out.log.map (fun e => (e.1.argv, e.2)),
-    outBefore := fs p, outAfter := out.fs p,
-    fileBefore := fs (p.child "ANALYSIS.root"), fileAfter := out.fs (p.child "ANALYSIS.root"),
+    code := code, log := log.map (fun e => (e.1.argv, e.2)),
+    outBefore := fs p, outAfter := fs' p,
+    fileBefore := fs (p.child "ANALYSIS.root"), fileAfter := fs' (p.child "ANALYSIS.root"),
     listInput := listInputOf fs }
+
+/-- the observation a model run gives rise to -/
+def obsOf (b : Backend) (script : List Sh) (i : Inv) (o : Oracle) (invId : Nat) (fs : FS) (live : Bool) : Obs :=
+  let out := run script i o invId fs
+  mkObs b i invId live out.code out.log fs out.fs
 
 end FaxVerif.C16
